@@ -410,3 +410,122 @@ macro_rules! c05_exist_wild {
 }
 c05_exist_wild!(c05_exist_wild_n0, 0);
 c05_exist_wild!(c05_exist_wild_n2, 2);
+
+// `@ == $[1]`: the `$` operand of a comparison is a singular query from the DOCUMENT ROOT
+// (an array [r0, r1]; index concrete), `@` is the child under test. Filter on [x0, x1].
+macro_rules! c05_scope_idx {
+    ($name:ident, $swap:expr, $op:expr, $spec:expr) => {
+        proof!($name, 6, {
+            let mut sr = Scratch::new();
+            let mut sx = Scratch::new();
+            let (r0, r1, x0, x1): (i64, i64, i64, i64) = (kani::any(), kani::any(), kani::any(), kani::any());
+            sx.elems[0] = Mini::Int(x0);
+            sx.elems[1] = Mini::Int(x1);
+            let xs = sx.arr(2);
+            sr.elems[0] = Mini::Int(r0);
+            sr.elems[1] = Mini::Int(r1);
+            let root = sr.arr_c(2);
+            let mut rseg = m_sqs_index(1);
+            let mut e = m_sqs_index(0);
+            let (ta, tb) = if $swap { (SQ_ROOT, SQ_CURRENT) } else { (SQ_CURRENT, SQ_ROOT) };
+            let va = if $swap { sqs_vec(&mut rseg, 1) } else { sqs_empty(&mut e) };
+            let vb = if $swap { sqs_empty(&mut e) } else { sqs_vec(&mut rseg, 1) };
+            let mut cmp = MCmp { tag: $op, a: mc_sq(ta, va), b: mc_sq(tb, vb) };
+            let f = Filter::Atom(FilterAtom::Comparison(cmp_box(&mut cmp)));
+            let r = f.process(State::data(&root, Data::Ref(Pointer::new(&xs, String::from("p")))));
+            let mut got = [core::ptr::null::<Mini>(); 8];
+            let n = nodes_of(&r.data, &mut got);
+            let spec = $spec;
+            let keep = [spec(x0, r1), spec(x1, r1)];
+            let mut k = 0;
+            let mut i = 0;
+            while i < 2 {
+                if keep[i] {
+                    assert!(k < n && core::ptr::eq(got[k], &sx.elems[i]), "`@ op $[1]`: a child satisfying the comparison with the root's element must be kept");
+                    k += 1;
+                }
+                i += 1;
+            }
+            assert!(n == k, "`@ op $[1]`: a child not satisfying the comparison with the root's element was kept");
+            kani::cover!(n == 2, "both children kept");
+            kani::cover!(n == 1, "one child kept");
+            kani::cover!(n == 0 && x0 == r0, "child equal to the other root element is not kept");
+            forget(r);
+            forget(f);
+            forget(sr);
+            forget(sx);
+        });
+    };
+}
+c05_scope_idx!(c05_scope_idx_cur_root, false, OP_EQ, |x: i64, r: i64| x == r);
+c05_scope_idx!(c05_scope_idx_root_cur, true, OP_EQ, |x: i64, r: i64| x == r);
+c05_scope_idx!(c05_scope_idx_root_lt_cur, true, OP_LT, |x: i64, r: i64| r < x);
+
+// `@ == $.k` on a single-member root object {k: r0}
+proof!(c05_scope_key1, 6, {
+    let mut sr = Scratch::new();
+    let mut sx = Scratch::new();
+    let (r0, x0, x1): (i64, i64, i64) = (kani::any(), kani::any(), kani::any());
+    sx.elems[0] = Mini::Int(x0);
+    sx.elems[1] = Mini::Int(x1);
+    let xs = sx.arr(2);
+    sr.set(0, "k", Mini::Int(r0));
+    let root = sr.obj(1);
+    let mut rseg = m_sqs_name("k");
+    let mut e = m_sqs_index(0);
+    let mut cmp = MCmp { tag: OP_EQ, a: mc_sq(SQ_CURRENT, sqs_empty(&mut e)), b: mc_sq(SQ_ROOT, sqs_vec(&mut rseg, 1)) };
+    let f = Filter::Atom(FilterAtom::Comparison(cmp_box(&mut cmp)));
+    let r = f.process(State::data(&root, Data::Ref(Pointer::new(&xs, String::from("p")))));
+    let mut got = [core::ptr::null::<Mini>(); 8];
+    let n = nodes_of(&r.data, &mut got);
+    let keep = [x0 == r0, x1 == r0];
+    let mut k = 0;
+    let mut i = 0;
+    while i < 2 {
+        if keep[i] {
+            assert!(k < n && core::ptr::eq(got[k], &sx.elems[i]), "`@ == $.k`: children equal to the root's member must be kept");
+            k += 1;
+        }
+        i += 1;
+    }
+    assert!(n == k, "`@ == $.k`: a child different from the root's member was kept");
+    kani::cover!(n == 2, "both children equal $.k");
+    kani::cover!(n == 1, "one child equals $.k");
+    forget(r);
+    forget(f);
+    forget(sr);
+    forget(sx);
+});
+
+// existence test over an index: `?@[i]` / `?!@[i]` on a child array of $n elements is true
+// iff element i exists (negative i counts from the end), whatever the element is.
+macro_rules! c05_exist_idx {
+    ($name:ident, $n:expr) => {
+        proof!($name, 6, {
+            let root = Mini::Null;
+            let mut sc = Scratch::new();
+            sc.elems[0] = Mini::Null;
+            sc.elems[1] = Mini::Bool(false);
+            sc.elems[2] = Mini::Int(0);
+            let child = sc.arr($n);
+            let not: bool = kani::any();
+            let i: i64 = any_ijson();
+            let mut seg = m_index(i);
+            let mut t = Test::RelQuery(seg_vec(&mut seg, 1));
+            let atom = FilterAtom::Test { expr: tbox(&mut t), not };
+            let r = atom.process(State::data(&root, Data::Ref(Pointer::empty(&child))));
+            let got = matches!(r.data, Data::Value(Mini::Bool(true)));
+            let exists = rfc_index(i, $n).is_some();
+            assert!(got == (exists ^ not), "existence test over an index must be true exactly when that element exists");
+            kani::cover!(exists && i < 0 || $n == 0, "negative index addressing an existing element");
+            kani::cover!(exists && i >= 0 || $n == 0, "non-negative index addressing an existing element");
+            kani::cover!(!exists, "no such element");
+            forget(r);
+            forget(atom);
+            forget(sc);
+        });
+    };
+}
+c05_exist_idx!(c05_exist_idx_n0, 0);
+c05_exist_idx!(c05_exist_idx_n1, 1);
+c05_exist_idx!(c05_exist_idx_n3, 3);
